@@ -15,6 +15,7 @@ import (
 	pdserver "github.com/feichai0017/NoKV/pd/server"
 	pdstorage "github.com/feichai0017/NoKV/pd/storage"
 	"github.com/feichai0017/NoKV/pd/tso"
+	"github.com/feichai0017/NoKV/vfs"
 	"verifharness/internal/corr"
 	"verifharness/internal/sched"
 )
@@ -32,8 +33,8 @@ type pdDesc struct {
 	IDStart  uint64  `json:"id_start"`
 	TSStart  uint64  `json:"ts_start"`
 	Reqs     []pdReq `json:"reqs"`
-	Schedule []int   `json:"schedule"`
-	Drain    bool    `json:"drain"` // complete the first incarnation round-robin before the crash
+	Schedule []int   `json:"schedule"` // thread ids; id+100 = grant the thread at the persistMu.Lock point even if the mutex is held
+	Drain    bool    `json:"drain"`    // complete the first incarnation round-robin before the crash
 	IDStart2 uint64  `json:"id_start2"`
 	TSStart2 uint64  `json:"ts_start2"`
 	Reqs2    []pdReq `json:"reqs2"`
@@ -47,8 +48,8 @@ type pdInc struct {
 	svc   *pdserver.Service
 }
 
-func pdOpen(dir string, idStart, tsStart uint64) (*pdInc, error) {
-	store, err := pdstorage.OpenLocalStore(dir, nil)
+func pdOpen(dir string, idStart, tsStart uint64, fs vfs.FS) (*pdInc, error) {
+	store, err := pdstorage.OpenLocalStore(dir, fs)
 	if err != nil {
 		return nil, err
 	}
@@ -94,6 +95,8 @@ func pdTag(st sched.Step) int {
 	switch st.Status {
 	case sched.Finished:
 		return 5
+	case sched.Blocked:
+		return 6
 	case sched.Parked:
 		switch {
 		case strings.HasSuffix(st.Point, ".reserve"):
@@ -149,17 +152,64 @@ func pdCase(base string, d pdDesc) (corr.Case, error) {
 	}
 	defer os.RemoveAll(root)
 	dir1 := filepath.Join(root, "a")
-	in, err := pdOpen(dir1, d.IDStart, d.TSStart)
+	var mu sync.Mutex
+	var steps []string
+	var images []string
+	var imgErr error
+	imaging := true
+	nimg := 0
+	// every file-system operation of SaveAllocatorState is a crash point: the directory is
+	// copied as it is just before the operation (for WriteFile also with the target truncated,
+	// which is what a kill between O_TRUNC and the write leaves) and a service is booted from it
+	hook := func(op vfs.Op, path string) error {
+		if !strings.Contains(filepath.Base(path), pdstorage.StateFileName) || (op != vfs.OpWriteFile && op != vfs.OpRename) {
+			return nil
+		}
+		mu.Lock()
+		on, k := imaging, len(steps)
+		mu.Unlock()
+		if !on {
+			return nil
+		}
+		variants := []bool{false}
+		if op == vfs.OpWriteFile {
+			variants = append(variants, true)
+		}
+		for _, torn := range variants {
+			nimg++
+			img := filepath.Join(root, fmt.Sprintf("img%d", nimg))
+			if err := copyDir(dir1, img); err != nil {
+				imgErr = err
+				return nil
+			}
+			if torn {
+				if err := os.WriteFile(filepath.Join(img, filepath.Base(path)), nil, 0o644); err != nil {
+					imgErr = err
+					return nil
+				}
+			}
+			b, err := pdOpen(img, 1, 1, nil)
+			if err != nil {
+				imgErr = fmt.Errorf("boot from crash image: %w", err)
+				return nil
+			}
+			images = append(images, fmt.Sprintf("Im %d %d %d", k, b.ids.Current(), b.ts.Current()))
+			_ = b.store.Close()
+			os.RemoveAll(img)
+		}
+		return nil
+	}
+	in, err := pdOpen(dir1, d.IDStart, d.TSStart, vfs.NewFaultFS(vfs.OSFS{}, hook))
 	if err != nil {
 		return corr.Case{}, err
 	}
-	var mu sync.Mutex
 	first := make([]uint64, len(d.Reqs))
 	failed := false
 	s := sched.New()
+	forced := -1
 	s.SetEnabled(func(id int, point string) bool {
 		if strings.HasSuffix(point, "persist.lock") {
-			return !pdPersistLocked(in.svc)
+			return id == forced || !pdPersistLocked(in.svc)
 		}
 		return true
 	})
@@ -175,8 +225,9 @@ func pdCase(base string, d pdDesc) (corr.Case, error) {
 			mu.Unlock()
 		})
 	}
-	var steps []string
 	interleaved := false
+	waiting := -1 // thread blocked for real inside persistMu.Lock
+	kind := "St"
 	after := func(_ int, st sched.Step) {
 		cid, cts := pdCheckpoint(dir1)
 		mu.Lock()
@@ -185,10 +236,27 @@ func pdCase(base string, d pdDesc) (corr.Case, error) {
 			resp = first[st.Thread]
 		}
 		mu.Unlock()
-		steps = append(steps, fmt.Sprintf("St %d %s %d %d %d %d %d %d", st.Thread, corr.Bool(st.Ran), pdTag(st),
-			in.ids.Current(), in.ts.Current(), cid, cts, resp))
+		line := fmt.Sprintf("%s %d %s %d %d %d %d %d %d", kind, st.Thread, corr.Bool(st.Ran), pdTag(st),
+			in.ids.Current(), in.ts.Current(), cid, cts, resp)
+		for _, w := range st.Woken {
+			if w == waiting {
+				waiting = -1
+			}
+		}
+		mu.Lock()
+		steps = append(steps, line)
+		mu.Unlock()
 	}
-	s.Run(d.Schedule, after)
+	for i, pick := range d.Schedule {
+		t := pick % 100
+		kind = "St"
+		if pick >= 100 && waiting < 0 && strings.HasSuffix(s.Point(t), "persist.lock") && pdPersistLocked(in.svc) {
+			// the real Lock blocks (goroutine-state fallback of the scheduler); the model's thread stays disabled
+			forced, kind, waiting = t, "Sf", t
+		}
+		after(i, s.Grant(t))
+		forced, kind = -1, "St"
+	}
 	if d.Drain {
 		s.Drain(12*len(d.Reqs), after)
 	}
@@ -202,6 +270,9 @@ func pdCase(base string, d pdDesc) (corr.Case, error) {
 	if err := copyDir(dir1, dir2); err != nil {
 		return corr.Case{}, err
 	}
+	mu.Lock()
+	imaging = false
+	mu.Unlock()
 	if !s.Close(5 * time.Second) {
 		return corr.Case{}, fmt.Errorf("pdalloc: threads did not finish")
 	}
@@ -209,7 +280,10 @@ func pdCase(base string, d pdDesc) (corr.Case, error) {
 	if failed {
 		return corr.Case{}, fmt.Errorf("pdalloc: request failed")
 	}
-	in2, err := pdOpen(dir2, d.IDStart2, d.TSStart2)
+	if imgErr != nil {
+		return corr.Case{}, imgErr
+	}
+	in2, err := pdOpen(dir2, d.IDStart2, d.TSStart2, nil)
 	if err != nil {
 		return corr.Case{}, err
 	}
@@ -224,8 +298,8 @@ func pdCase(base string, d pdDesc) (corr.Case, error) {
 	}
 	cid, cts := pdCheckpoint(dir2)
 	_ = in2.store.Close()
-	term := fmt.Sprintf("Cs %d %d %s %s (Cr %d %d %s %d %d %s %d %d)", d.IDStart, d.TSStart, reqTerm(d.Reqs), corr.List(steps),
-		d.IDStart2, d.TSStart2, reqTerm(d.Reqs2), id0, ts0, corr.List(firsts), cid, cts)
+	term := fmt.Sprintf("Cs %d %d %s %s %s (Cr %d %d %s %d %d %s %d %d)", d.IDStart, d.TSStart, reqTerm(d.Reqs), corr.List(steps),
+		corr.List(images), d.IDStart2, d.TSStart2, reqTerm(d.Reqs2), id0, ts0, corr.List(firsts), cid, cts)
 	return corr.Case{Coq: term, Nontrivial: interleaved, Desc: d}, nil
 }
 
@@ -294,6 +368,26 @@ func runPdAlloc(c *corr.Ctx) error {
 	})
 	if ferr != nil {
 		return ferr
+	}
+	// a request is granted at persistMu.Lock while another one holds the mutex
+	for i := 0; i < c.Scale(150, 2500); i++ {
+		n := 2 + c.Rng.Intn(2)
+		d := pdDesc{IDStart: 1, TSStart: 1, Reqs: genPdReqs(c, n), IDStart2: 1, TSStart2: 1, Reqs2: genPdReqs(c, 1+c.Rng.Intn(2))}
+		for k := 0; k < 2+c.Rng.Intn(3); k++ {
+			d.Schedule = append(d.Schedule, 0)
+		}
+		d.Schedule = append(d.Schedule, 1, 101)
+		for _, p := range sched.RandomBlocks(c.Rng, n, c.Rng.Intn(4*n), 4) {
+			if c.Rng.Intn(6) == 0 {
+				p += 100
+			}
+			d.Schedule = append(d.Schedule, p)
+		}
+		d.Drain = c.Rng.Intn(2) == 0
+		c.Count("forced_lock")
+		if err := emit(d); err != nil {
+			return err
+		}
 	}
 	starts := []uint64{0, 1, 1, 1, 2, 5, 100}
 	for i := 0; i < c.Scale(400, 8000); i++ {
